@@ -143,6 +143,13 @@ func RunC16Diff(p *Plan, env *Env) *RunResult {
 	big := p.Clone()
 	big.Knobs.CacheCap = 0
 	big.Knobs.ForceFlush = false
+	if p.Knobs.SparseObserve {
+		// a giant plan: the table outgrows the DEFAULT cache, so the default
+		// capacity is the small side and a cache that never evicts the big one
+		small.Knobs.CacheCap = 0
+		small.Knobs.ForceFlush = false
+		big.Knobs.CacheCap = 1 << 20
+	}
 	a := RunPlan(big, env)
 	b := RunPlan(small, env)
 	res := &RunResult{Stats: map[string]int64{}}
